@@ -156,6 +156,8 @@ def check_particle_s2(run, pkg):
             if t == bins:
                 return rs
             r_ = at(t)
+            if r_ == dS:
+                return sp.Integer(ndim)       # this obligation belongs to the configuration with that dimension
             return r_
         want = (2 * sp.pi * rs * rho) if ndim == 2 else (4 * sp.pi * rs ** 2 * rho)
         check_algebra(run, "R-ALG", it, f"{tag}:shell-norm", f"shell norm = {'2 pi r rho' if ndim == 2 else '4 pi r^2 rho'}", norms, want, atn, loc, positive=True)
